@@ -1573,3 +1573,145 @@ def r05_6(ctx, repo):
                        'per-individual parameter tensor', engine=ENG)
     if n < 10:
         ctx.error(rule, 'only %d methods analysed (floor 10)' % n)
+
+
+# -----------------------------------------------------------------------------
+# R07.5 — the selection is ordered lexicographically by (parameter, dimension)
+# -----------------------------------------------------------------------------
+def r07_5(ctx, repo):
+    """The covariate model publishes its selection sorted by parameter index
+    first and dimension index second (the flatten order of the
+    (n_param_per_dim, n_dim) parameter table, which the name and coefficient
+    layouts rely on).  Recognised ways to establish it:
+      * successive passes `X = X[np.argsort(X[:, c]), :]`: the result is
+        ordered by the *last* pass first, and earlier passes only survive
+        as tie-breakers if every later pass is stable (kind='stable' /
+        'mergesort'); numpy's default sort is not stable beyond 16 elements;
+      * `np.lexsort((minor, major))` (last key is the primary one);
+      * one argsort of a composite key `major * S + minor`, where the stride
+        S must exceed every minor key (max(minor) + 1)."""
+    rule = 'R07.5'
+    n = 0
+    for cls in repo.subclasses('CovariateModel', strict=True):
+        fn = repo.cls(cls).methods.get('set_population_parameters')
+        if fn is None or repo.is_abstract(fn):
+            continue
+        construct = '%s.set_population_parameters' % cls
+        sorts = [c for c in ast.walk(fn) if isinstance(c, ast.Call)
+                 and U(c.func) in ('np.argsort', 'np.lexsort')]
+        sorts.sort(key=lambda c: (c.lineno, c.col_offset))
+        if not sorts:
+            ctx.error(rule, '%s: no sort of the selection found' % construct)
+            continue
+        n += 1
+
+        def col(e):
+            """column index of `X[:, c]` (through a local name)"""
+            if isinstance(e, ast.Name):
+                d = [a for a in ast.walk(fn) if isinstance(a, ast.Assign)
+                     and U(a.targets[0]) == e.id and a.lineno <= e.lineno]
+                if d:
+                    return col(d[-1].value)
+            if isinstance(e, ast.Subscript) and isinstance(
+                    e.slice, ast.Tuple) and len(e.slice.elts) == 2 and \
+                    isinstance(e.slice.elts[1], ast.Constant):
+                return e.slice.elts[1].value
+            return None
+
+        def stable(c):
+            return any(k.arg == 'kind' and isinstance(k.value, ast.Constant)
+                       and k.value.value in ('stable', 'mergesort')
+                       for k in c.keywords)
+        where = repo.loc(sorts[-1], cls, fn.name)
+        keys = None
+        if all(U(c.func) == 'np.argsort' for c in sorts):
+            passes = []
+            for c in sorts:
+                a = c.args[0] if c.args else None
+                k = col(a) if a is not None else None
+                comp = None
+                if k is None and isinstance(a, ast.BinOp) and isinstance(
+                        a.op, ast.Add):
+                    comp = a
+                passes.append((c, k, comp))
+            if len(passes) == 1 and passes[0][2] is not None:
+                # composite key major * S + minor
+                a = passes[0][2]
+                mul = a.left if isinstance(a.left, ast.BinOp) else a.right
+                minor = a.right if mul is a.left else a.left
+                if isinstance(mul, ast.BinOp) and isinstance(
+                        mul.op, ast.Mult):
+                    major, S = mul.left, mul.right
+                    if col(major) is None:
+                        major, S = mul.right, mul.left
+                    kmaj, kmin = col(major), col(minor)
+                    sdef = S
+                    if isinstance(S, ast.Name):
+                        d = [x for x in ast.walk(fn) if isinstance(
+                            x, ast.Assign) and U(x.targets[0]) == S.id]
+                        sdef = d[-1].value if d else S
+                    scol = [col(x) for x in ast.walk(sdef)
+                            if isinstance(x, (ast.Subscript, ast.Name))]
+                    scol = [x for x in scol if x is not None]
+                    if kmaj is None or kmin is None:
+                        ctx.error(rule, '%s: composite sort key `%s` not '
+                                  'recognised' % (construct, U(a)[:50]))
+                        continue
+                    if scol and set(scol) != {kmin}:
+                        ctx.violation(
+                            rule, where, construct, 'sort stride',
+                            'the composite sort key `%s` multiplies column '
+                            '%d by `%s`, which is derived from column %s; '
+                            'the stride must exceed every value of the '
+                            'minor key (column %d), otherwise keys of '
+                            'different (parameter, dimension) pairs '
+                            'collide or interleave' % (
+                                U(a)[:60], kmaj, U(sdef)[:40],
+                                sorted(set(scol)), kmin))
+                        continue
+                    keys = [kmaj, kmin]
+            elif all(p[1] is not None for p in passes):
+                keys = [passes[-1][1]]
+                for i in range(len(passes) - 2, -1, -1):
+                    later = passes[i + 1:]
+                    if all(stable(c) for c, _, _ in later):
+                        keys.append(passes[i][1])
+                    else:
+                        c = [c for c, _, _ in later if not stable(c)][0]
+                        ctx.violation(
+                            rule, repo.loc(c, cls, fn.name), construct,
+                            'unstable pass',
+                            '`%s` is a later pass of a multi-key sort but '
+                            'uses numpy\'s default (unstable) algorithm: '
+                            'beyond 16 rows it does not preserve the order '
+                            'established by the earlier pass on column %d, '
+                            'so the selection is not sorted by (parameter, '
+                            'dimension) and names / coefficients are '
+                            'attached to the wrong pairs' % (
+                                U(c)[:60], passes[i][1]))
+                        keys = None
+                        break
+        elif len(sorts) == 1 and U(sorts[0].func) == 'np.lexsort' \
+                and sorts[0].args and isinstance(
+                    sorts[0].args[0], (ast.Tuple, ast.List)):
+            ks = [col(e) for e in sorts[0].args[0].elts]
+            if all(k is not None for k in ks):
+                keys = list(reversed(ks))
+        if keys is None:
+            if not any(f['rule'] == rule and f['construct'] == construct
+                       for f in ctx.findings):
+                ctx.error(rule, '%s: ordering of the selection not '
+                          'recognised' % construct)
+            continue
+        if keys[:2] == [0, 1]:
+            ctx.ok(rule, where, construct,
+                   'selection is ordered by (parameter index, dimension '
+                   'index)')
+        else:
+            ctx.violation(
+                rule, where, construct, 'sort keys',
+                'the selection is ordered by columns %s; the published '
+                'order is (parameter index, dimension index) = columns '
+                '[0, 1]' % keys)
+    if n < 1:
+        ctx.error(rule, 'no covariate model with a sorted selection found')
